@@ -26,3 +26,12 @@ for ob in r.obligations:
                 except Exception as ex:
                     print('  ', e, '!!', type(ex).__name__, ex)
             break
+if '--pc' in sys.argv:
+    pat = sys.argv[sys.argv.index('--pc') + 1]
+    for ob in r.obligations:
+        if sub in ob.name and ob.refuted:
+            for k_, c_ in enumerate(ob.pc):
+                t = ' '.join(str(c_).split())
+                if pat in t:
+                    print('PC', k_, t[:260])
+            break
